@@ -117,3 +117,62 @@ Qed.
 Corollary unflatten_ord_pairs kv k v :
   conflict_free kv -> In (k, v) kv -> get_dotted (split_dots k) (unflatten_ord kv) = Some v.
 Proof. intros CF Hin. unfold unflatten_ord. now apply (unflatten_pairs kv [] k v). Qed.
+
+(* ---------- exactness: the tree has no other leaves than the decoded pairs *)
+Lemma get_unflatten_set_cases : forall pc q v kvs x,
+  is_con v = false ->
+  get_dotted q (unflatten_set pc v kvs) = Some x -> is_con x = false ->
+  (q = pc /\ x = v) \/ get_dotted q kvs = Some x.
+Proof.
+  induction pc as [|c r IH]; intros q v kvs x Hv G Hx; [now right|].
+  destruct r as [|c' r'].
+  - (* last component *)
+    simpl in G. destruct q as [|k qr]; [discriminate|].
+    destruct qr as [|k' qr'].
+    + simpl in *. destruct (String.eqb_spec k c) as [->|NE].
+      * rewrite kv_get_set_same in G. injection G as <-. now left.
+      * rewrite kv_get_set_other in G by exact NE. now right.
+    + change (get_dotted (k :: k' :: qr') ?K) with
+        (match kv_get k K with Some (Con s) => get_dotted (k' :: qr') s | _ => None end) in *.
+      destruct (String.eqb_spec k c) as [->|NE].
+      * rewrite kv_get_set_same in G. destruct v; try discriminate.
+      * rewrite kv_get_set_other in G by exact NE. now right.
+  - change (unflatten_set (c :: c' :: r') v kvs) with
+      (kv_set c (Con (unflatten_set (c' :: r') v (match kv_get c kvs with Some (Con s) => s | _ => [] end))) kvs) in G.
+    destruct q as [|k qr]; [discriminate|].
+    destruct qr as [|k' qr'].
+    + simpl in *. destruct (String.eqb_spec k c) as [->|NE].
+      * rewrite kv_get_set_same in G. injection G as <-. discriminate.
+      * rewrite kv_get_set_other in G by exact NE. now right.
+    + change (get_dotted (k :: k' :: qr') ?K) with
+        (match kv_get k K with Some (Con s) => get_dotted (k' :: qr') s | _ => None end) in *.
+      destruct (String.eqb_spec k c) as [->|NE].
+      * rewrite kv_get_set_same in G.
+        apply IH in G; [|exact Hv|exact Hx]. destruct G as [[-> ->]|G]; [now left|right].
+        destruct (kv_get c kvs) as [[w|xs|s]|]; try (now rewrite get_dotted_nil_kvs in G). exact G.
+      * rewrite kv_get_set_other in G by exact NE. now right.
+Qed.
+
+Theorem unflatten_exact : forall kv acc q x,
+  Forall (fun e => is_con (snd e) = false) kv ->
+  get_dotted q (fold_left step_un kv acc) = Some x -> is_con x = false ->
+  (exists k, In (k, x) kv /\ split_dots k = q) \/ get_dotted q acc = Some x.
+Proof.
+  induction kv as [|[k v] r IH]; intros acc q x F G Hx; [now right|].
+  inversion F as [|? ? Hv Fr]; subst. simpl in G, Hv.
+  apply IH in G; [|exact Fr|exact Hx]. destruct G as [[k' [Hin E]]|G].
+  - left. exists k'. split; [now right|exact E].
+  - unfold step_un in G. simpl in G.
+    apply get_unflatten_set_cases in G; [|exact Hv|exact Hx].
+    destruct G as [[-> ->]|G]; [|now right]. left. exists k. split; [now left|reflexivity].
+Qed.
+
+Corollary unflatten_ord_exact kv q x :
+  Forall (fun e => is_con (snd e) = false) kv ->
+  get_dotted q (unflatten_ord kv) = Some x -> is_con x = false ->
+  exists k, In (k, x) kv /\ split_dots k = q.
+Proof.
+  intros F G Hx. unfold unflatten_ord in G.
+  destruct (unflatten_exact kv [] q x F G Hx) as [H|H]; [exact H|].
+  now rewrite get_dotted_nil_kvs in H.
+Qed.
